@@ -30,6 +30,7 @@ func runC01(c *Ctx) {
 	r.Doc("B10", "tactic typestate: the sending function is reached only with an established or all-zero allotment; divisions only from the reset state with a valid dividend", 2)
 	r.Doc("B11", "v1: actual entries are deleted only when zero and unregistered; no other writer of actual", 1)
 	r.Doc("B12", "simplified disciplines: Handle between receive and release (= X7)", 2)
+	r.Doc("B13", "the configured HandlersQuantity is the capacity in force: it is only ever copied, never recomputed", 2)
 	for _, p := range []*Prog{c.V1, c.V2} {
 		pr, err := resolvePrio(p)
 		if err != nil {
@@ -48,6 +49,7 @@ func runC01(c *Ctx) {
 		checkB7(c, pr)
 		checkB9(c, pr)
 		checkB10(c, pr)
+		checkCapacityUnmodified(c, p, "B13")
 		if pr.v1 {
 			checkB11(c, pr)
 		}
